@@ -121,3 +121,22 @@ Theorem find_reports_first_occurrence :
     (exists r, skipn n s = p ++ r /\ n <= List.length s) /\ forall m, m < n -> prefixb p (skipn m s) = false.
 Proof. exact find_reports_first_occurrence_lemma. Qed.
 Print Assumptions find_reports_first_occurrence.
+
+(* the WHOLE record of global switches (evaluate, distribute, exp_is_pow, ...): if every field that disable / enable /
+   reset write (read from the AST of core/processors.py on every run) is written back to its default by reset
+   (`covers`, decided by vm_compute on the translated table), then a reset restores the record whatever came before ... *)
+Theorem reset_restores_all_switches :
+  forall P s0, covers P s0 = true -> forall ops, sw_equiv (sw_op P (sw_ops P s0 ops) OpReset) s0.
+Proof. exact reset_restores_all_switches_lemma. Qed.
+Print Assumptions reset_restores_all_switches.
+
+(* ... hence the record is the default one after the patched module of ANY body, and after any sequence of pages *)
+Theorem patch_switches_restored :
+  forall P s0, covers P s0 = true -> forall body, sw_equiv (sw_run P s0 (patch body)) s0.
+Proof. exact patch_switches_restored_lemma. Qed.
+Print Assumptions patch_switches_restored.
+
+Theorem pages_switches_restored :
+  forall P s0, covers P s0 = true -> forall mods, sw_equiv (sw_pages P s0 mods) s0.
+Proof. exact pages_switches_restored_lemma. Qed.
+Print Assumptions pages_switches_restored.
